@@ -3,7 +3,7 @@ from vf.extract import FnC, Sel, Mod
 from vf.unit import Unit, Lemma
 from contracts import common as K
 
-P = ('C04', 'C01', 'C07', 'C08', 'C12', 'C14', 'C15', 'C16')
+P = ('C04', 'C01', 'C07', 'C08', 'C12', 'C14', 'C15', 'C16', 'C09', 'C10')
 
 # ghost members and contracts added to the repo's own trait declaration (ensures on impls of a generic
 # trait trip type inference in this Verus, DESIGN A.5)
